@@ -20,4 +20,4 @@ for p in "$@"; do
   echo "MUT $name check=$p tier=$tier rc=$rc violations=$nv $first $inc"
 done
 git -C /repo worktree remove --force $wt
-rm -rf /tmp/mut/shadow-$name /tmp/mut/ev-$name
+rm -rf /tmp/mut/shadow-$name /tmp/mut/shadow-$name-c16 /tmp/mut/shadow-$name-c16-target /tmp/mut/ev-$name
